@@ -2,6 +2,7 @@
    Statements only. *)
 From Coq Require Import String ZArith List Bool Lia.
 From FcpV Require Import Base.Bits Schema.Types Layout.Packed Layout.PackedProofs Verifier.Checks.
+From FcpV Require Dbc.DbcLib Dbc.DbcSrcProofs gen.PyDbc.
 From FcpV Require Import Dbc.DbcModel Dbc.DbcSem Dbc.DbcProofs Base.Cases.
 Import ListNotations.
 Open Scope Z_scope.
@@ -61,6 +62,21 @@ Proof.
   apply andb_true_iff in H. destruct H as [H1 H2]. apply Nat.eqb_eq in H1. subst. f_equal. now apply IH.
 Qed.
 Print Assumptions dbc_be_start_bit_reads_whole_bytes.
+
+(* ---- _make_signals of plugins/fcp_dbc/fcp_dbc/dbc_writer.py is translated from the source on every run (gen/PyDbc.v): the signals
+   and the message length it computes from a layout are the model's, and it raises exactly when the model has no result (an empty
+   layout; more than 64 bits) ---- *)
+Theorem source_make_signals_is_the_model :
+  forall ps, DbcSrcProofs.res_of (PyDbc.py_make_signals ps) = make_signals ps.
+Proof. exact DbcSrcProofs.make_signals_is_model. Qed.
+Print Assumptions source_make_signals_is_the_model.
+
+(* write_dbc of the same file, translated as well: per bus, the messages handed to cantools (id, name, length, signals), in the model's
+   order; it raises / returns Err exactly when the model has no result *)
+Theorem source_write_dbc_is_the_model :
+  forall sc ims, option_map DbcSrcProofs.drop_nodes (DbcSrcProofs.dres_of (PyDbc.py_write_dbc sc ims)) = write_dbc sc ims.
+Proof. exact DbcSrcProofs.write_dbc_is_model. Qed.
+Print Assumptions source_write_dbc_is_the_model.
 
 Example c05_nonvacuous :
   let sc := {| structs := [ {| sname := "Foo"; sfields :=
